@@ -421,6 +421,14 @@ struct Resolver {
     file_to_namespace: HashMap<FileOrLib, NamespaceID>,
 }
 
+/// Redundant parentheses are insignificant: `(fn ..)` is as much a function literal as `fn ..`.
+fn unparenthesized(expr: &ParserExpression) -> &ParserExpression {
+    match &expr.kind {
+        sylt_parser::ExpressionKind::Parenthesis(inner) => unparenthesized(inner),
+        _ => expr,
+    }
+}
+
 impl Resolver {
     fn new(namespace_to_file: HashMap<NamespaceID, FileOrLib>) -> Self {
         let file_to_namespace = namespace_to_file
@@ -970,7 +978,7 @@ impl Resolver {
                     self.stack.clear();
                     let var = self.lookup(&ident.name, span)?;
                     (value, var)
-                } else if matches!(value.kind, sylt_parser::ExpressionKind::Function { .. }) {
+                } else if matches!(unparenthesized(value).kind, sylt_parser::ExpressionKind::Function { .. }) {
                     // Function, push the var before!
                     let var = self.push_var(ident, *kind);
                     let value = self.expression(value)?;
